@@ -214,6 +214,18 @@ def gen_inputs(ctx):
         if j % 4 != 3:
             c.append(('Injection Well Drilling and Completion Capital Cost', ic))
         cfgs.append(c)
+    # a user-fixed O&M / capital component on every plant kind (the end-use specific blocks have their own guards), and cost inputs
+    # stated with exactly their default value (an adjustment factor of 1 for the injection wells is a statement, not an absence)
+    for (eu, pl) in ((2, 5), (2, 6), (2, 7), (2, 9), (1, 1), (31, 2), (52, 4)):
+        for key in (('Surface Plant O&M Cost', 'Wellfield O&M Cost', 'Water Cost', 'Surface Plant Capital Cost')[:ctx.n(2, 4)]):
+            c = [(k, v) for k, v in configs.synthetic(rnd, enduse=eu, plant=pl, resmodel=4, life=rnd.choice([5, 10, 20]))
+                 if k not in (key, key + ' Adjustment Factor', 'Total Capital Cost', 'Total O&M Cost')]
+            cfgs.append(c + [(key, configs.fmt(configs.dec(rnd, 0.2, 3, 2) if 'O&M' in key or key == 'Water Cost' else configs.dec(rnd, 5, 60, 1)))])
+    for _ in range(ctx.n(3, 20)):
+        c = [(k, v) for k, v in configs.synthetic(rnd) if not k.startswith(('Well Drilling and Completion Capital Cost',
+             'Injection Well Drilling and Completion Capital Cost', 'Total Capital Cost'))]
+        cfgs.append(c + [('Well Drilling and Completion Capital Cost Adjustment Factor', configs.fmt(configs.dec(rnd, 0.4, 2.5, 2))),
+                         ('Injection Well Drilling and Completion Capital Cost Adjustment Factor', '1')])
     for _ in range(ctx.n(2, 12)):   # district network cost supplied with the value that happens to be the declared default (10 M$)
         c = [(k, v) for k, v in configs.synthetic(rnd, enduse=2, plant=7, resmodel=4, life=5)
              if not k.startswith(('Total District', 'District Heating Network', 'District Heating Road', 'District Heating Land', 'District Heating Pop',
@@ -301,6 +313,24 @@ def helper_part(ctx, rows):
             descs.append({'fn': 'calculate_cost_of_one_vertical_well', 'correlation': m.name, 'depth_m': d, 'per_m': str(per_m),
                           'adj': str(adj), 'impl': got})
     cfgs = {'CfgULoop': Configuration.ULOOP, 'CfgCoaxial': Configuration.COAXIAL, 'CfgVertical': Configuration.VERTICAL, 'CfgL': Configuration.L}
+    # lateral sections: every correlation x {per-metre figure supplied or not} x {cased, uncased} x lengths around the 500 m switch
+    for m in W:
+        row = next(r for r in rows if r[0] == int(m.int_value))
+        coef = f'({qconv.q(row[2])}, {qconv.q(row[3])}, {qconv.q(row[4])})'
+        for _ in range(ctx.n(3, 12)):
+            nsec = rnd.choice([1, 2, 3, 5])
+            lps = rnd.choice([120, 499.5, 500, 500.5, 1500, 4200, rnd.randint(300, 6000)])
+            length = F(str(lps)) * nsec
+            per_m, adj = F(rnd.randint(300, 2500)), F(rnd.randint(5, 30), 10)
+            pm, cased = rnd.random() < 0.35, rnd.random() < 0.5
+            cfg = rnd.choice([Configuration.ULOOP, Configuration.COAXIAL, Configuration.L, Configuration.VERTICAL])
+            mstub = NS(logger=NS(warning=lambda *a, **k: None), wellbores=NS(Configuration=NS(value=cfg)),
+                       economics=NS(Nonvertical_drilling_cost_per_m=NS(Provided=pm)))
+            got = Economics.calculate_cost_of_non_vertical_section(mstub, float(length), m, float(per_m), nsec, 'x', cased, float(adj))
+            terms.append(f'close {qconv.q(TOL)} (lateral_cost {B(cfg is Configuration.VERTICAL)} {B(pm)} {B(row[5])} {B(cased)} {coef} '
+                         f'{qconv.q(nsec)} {qconv.q(length)} {qconv.q(per_m)} {qconv.q(adj)}) {Q(got)}')
+            descs.append({'fn': 'calculate_cost_of_non_vertical_section', 'correlation': m.name, 'configuration': cfg.name, 'nsec': nsec,
+                          'length_m': str(length), 'per_m': str(per_m), 'per_m_provided': pm, 'cased': cased, 'adj': str(adj), 'impl': got})
     for name, cfg in cfgs.items():
         for _ in range(ctx.n(10, 200)):
             nsec, nprod, ninj = rnd.randint(0, 6), rnd.randint(1, 5), rnd.randint(0, 5)
